@@ -1271,6 +1271,19 @@ func c05skChildRestart(spec c05skSpec, plan c05skPlan) {
 				inconc("SetStreamReadonly(false): %v", err)
 				return
 			}
+			// the switch is applied by every server's FSM on its own time: the
+			// publish precondition is checked against the LOCAL metadata
+			if !vfWait(60*time.Second, func() bool {
+				for _, n := range c.Running() {
+					if p := n.Partition(st.Name, 0); p == nil || p.IsReadonly() {
+						return false
+					}
+				}
+				return true
+			}) {
+				inconc("read-only flag still set on some server after SetStreamReadonly(false) was committed (watchdog)")
+				return
+			}
 			// the leader recorded in the metadata (a paused partition starts with the
 			// first publish)
 			leaderOf := func() *Server {
@@ -2145,6 +2158,7 @@ func TestVerifC05ServerKill(t *testing.T) {
 		work = t.TempDir()
 	}
 	rep.Assume("2-node plans: replica timeouts are 10 min, so the partition leader stays the leader across the kill and the restart (leader changes and HW-fallback truncation across a failover are C02's subject); with min ISR 2 an acknowledgement means both replicas wrote the message")
+	rep.Assume("a server process that dies by itself in partition log handling is a violation only when no stream was ever paused in that case's history: pause closes a log whose cleaner / follower loop may still run and resume opens a second log object on the same directory (seen: SIGBUS on a freshly created index truncated under its mapping, follower append on a closed segment); such deaths are counted (live_crash_after_pause:<frame>) and reported as inconclusive")
 	rep.Assume("a subscription that cannot be created or ends early because a compaction pass swaps the segment under it is created again from the next offset; a publish that is not acknowledged within its deadline, or a server that dies in the FSM while resuming a partition, is inconclusive (seen: a closed log's cleaner loop running one more iteration after pause)")
 	n := kit.EnvInt("C05SK_CASES", kit.Scale(28, 300))
 	first := kit.EnvInt("C05SK_FIRST", 0)
@@ -2189,7 +2203,15 @@ func TestVerifC05ServerKill(t *testing.T) {
 			}
 			rep.Eval()
 			rep.Count("child_died_by_itself", 1)
-			if c05skLogHandling(file) {
+			if c05skLogHandling(file) && ji.Kinds["Z"] > 0 {
+				// A stream had been paused: pause closes the partition's log while
+				// its cleaner loop / follower loop may still be running, and resume
+				// opens a second log object on the same directory.  A crash of the
+				// LIVE server in that situation is a defect, but not one of crash
+				// recovery (nothing had been recovered yet).
+				rep.Count("live_crash_after_pause:"+frame, 1)
+				rep.Inconc(fmt.Sprintf("case %d: run child died by itself after a stream had been paused (outside this property): %s (first repository frame %s %s)", idx, line, frame, file))
+			} else if c05skLogHandling(file) {
 				w := witness()
 				w["child_output"] = c05skTail(run.Output, 5000)
 				rep.Violation("C05:serverkill:child-crash:"+frame, fmt.Sprintf("the server process died by itself before the kill, in partition log handling: %s (first repository frame %s, %s)", line, frame, file), w)
@@ -2429,6 +2451,14 @@ func TestVerifC05ServerKill(t *testing.T) {
 			switch {
 			case srun.TimedOut:
 				rep.Inconc(fmt.Sprintf("case %d: watchdog expired on the restart child", idx))
+			case line != "" && c05skLogHandling(file) && ji.Kinds["Z"]+c05skParseJournal(sspec.Journal).Kinds["Z"] > 0:
+				// see above: with a pause in the history (replayed from the Raft log
+				// at start-up, or performed by the restart child) two log objects
+				// can work on one directory and the follower / cleaner loops of the
+				// closed one may still run; a crash then is not attributable to
+				// the recovery of the killed server's files
+				rep.Count("live_crash_after_pause:"+frame, 1)
+				rep.Inconc(fmt.Sprintf("case %d: restart child died with a pause / resume in its history (outside this property): %s (first repository frame %s %s)", idx, line, frame, file))
 			case line != "" && c05skLogHandling(file):
 				w := witness()
 				w["child_output"] = c05skTail(srun.Output, 5000)
@@ -2485,7 +2515,10 @@ func TestVerifC05ServerKill(t *testing.T) {
 				continue
 			}
 			if rd.Err != "" {
-				if strings.Contains(rd.Err, "DeadlineExceeded") || strings.Contains(rd.Err, "deadline") || strings.Contains(rd.Err, "timeout") {
+				if strings.Contains(rd.Err, "readonly partition") {
+					// an answer, not a lost message: the read-only flag is metadata (C06)
+					rep.Inconc(fmt.Sprintf("case %d: restart, stream %s, %s: %s", idx, rd.Stream, rd.Phase, rd.Err))
+				} else if strings.Contains(rd.Err, "DeadlineExceeded") || strings.Contains(rd.Err, "deadline") || strings.Contains(rd.Err, "timeout") {
 					rep.Count("restart_publish_not_acknowledged_in_time:"+rd.Phase, 1)
 					rep.Inconc(fmt.Sprintf("case %d: restart, stream %s, %s: %s", idx, rd.Stream, rd.Phase, rd.Err))
 				} else {
